@@ -49,6 +49,7 @@ func c01Check(c c01Case, rec *evid.Recorder) *Fail {
 		cfgs = c01DefaultCfgs()
 	}
 	plain := map[Cfg]string{}
+	var outputs []v8Output
 	for _, cfg := range cfgs {
 		rec.Eval()
 		res := compile(p, cfg)
@@ -65,6 +66,7 @@ func c01Check(c c01Case, rec *evid.Recorder) *Fail {
 		if cfg.Map && res.SourceMap == nil {
 			return failf("[%s] no source map returned", cfg)
 		}
+		outputs = append(outputs, v8Output{cfg.String(), res.Code})
 		got := jsrun.Run(res.Code)
 		if got.Completion == "interrupted" || got.Completion == "engine-limitation" {
 			rec.Discard("output run " + got.Completion)
@@ -73,6 +75,9 @@ func c01Check(c c01Case, rec *evid.Recorder) *Fail {
 		if !ref.Equal(got) {
 			return failf("[%s] compiled code behaves differently from the source\nsource: %s\noutput: %s %s\nsrc  %q\ncode %q", cfg, ref, got, got.Detail, c.Src, res.Code)
 		}
+	}
+	if f := v8Pass(c.Src, ref, outputs, rec); f != nil {
+		return f
 	}
 	rec.Class("completion:" + ref.Completion)
 	ops := map[string]bool{}
@@ -120,6 +125,7 @@ var c01Witnesses = []c01Case{
 	{Src: "let a = 1; let b = 2; if (a) b = 3; else b = 4; print(b); (function(){ print('iife') })()"},
 	{Src: "let o = {a: 1, 'b c': 2, 3: [1,2,3]}; print(o, o['b c'], o[3].length); null.x"},
 	{Src: "let u; print(u); print(typeofx)"},
+	{Src: "let a = 1; let b = 2; print(a < !--b, b); print(a-- > b, a)"},
 }
 
 func TestC01(t *testing.T) {
